@@ -93,6 +93,7 @@ def syntax_check(art, v):
 
 def norm_msg(msg):
     msg = re.sub(r"'[^']*'", "'…'", msg)
+    msg = re.sub(r'\d+', 'N', msg)
     return re.sub(r'\s+', ' ', msg)[:80]
 
 def skel_of(v):
